@@ -158,6 +158,12 @@ def strata(V):
          [1, ["sweep", "T1", allz, True]], [1, ["sweep", "public", allz, False]]],
         [[0, ["newtable", "T1"]], [0, ["newtable", "T2"]], [0, ["init", "T2", "mass", False]],
          [0, ["init", "T1", "mass", False]], [0, ["sweep", "T2", allz, False]], [0, ["sweep", "T1", allz, False]]],
+        # a helper builds a table, returns atoms and drops the table object
+        [[0, ["newtable", "T1"]], [0, ["init", "T1", "mass", False]],
+         [0, ["drop_handle", "T1", [[26, 56, 2], [1, 2, 0], [8, 0, 0]]]],
+         [0, ["roundtrip_kept", "T1", 0, "pickle:2"]], [0, ["roundtrip_kept", "T1", 1, "deepcopy"]],
+         [0, ["roundtrip_kept", "T1", 2, "pickle:0"]], [0, ["newtable", "T1"]],
+         [0, ["roundtrip_kept", "T1", 0, "pickle:4"]], [0, ["sweep", "T1", [0, 1, 8, 26], False]]],
     ]
 
 
@@ -177,6 +183,7 @@ def gen(seed, V, tier, index, bias=None):
     nodes = [0, 1] if two_nodes else [0]
     # per node: which private tables exist and whether their isotopes exist (predicted)
     have = {n: {} for n in nodes}
+    dropped = {n: {} for n in nodes}
     added = {}
     evs = []
     msg = 0
@@ -216,6 +223,15 @@ def gen(seed, V, tier, index, bias=None):
             if rng.random() < 0.6:
                 evs.append([n, ["init", name, "mass", False]])
                 have[n][name] = True
+            if rng.random() < 0.3 and name not in dropped[n]:
+                # the caller keeps a few atoms and lets go of the table object
+                refs = [pick_atom(n, name) for _ in range(3)]
+                evs.append([n, ["drop_handle", name, refs]])
+                dropped[n][name] = len(refs)
+        elif dropped[n] and r < 0.12:
+            name = rng.choice(sorted(dropped[n]))
+            evs.append([n, ["roundtrip_kept", name, rng.randrange(dropped[n][name]),
+                            rng.choice(["deepcopy", "copy"] + ["pickle:%d" % p for p in PROTOS])]])
         elif fam["private"] and r < 0.14:
             tt = rng.choice(tables_of(n))
             g = rng.choice(E.INIT_GROUPS)
@@ -270,6 +286,7 @@ def gen(seed, V, tier, index, bias=None):
         elif fam["exchange"] and r < 0.995 and rng.random() < 0.3:
             evs.append([n, ["restart"]])
             have[n] = {}
+            dropped[n] = {}
             for k in [k for k in added if k[0] == n]:
                 del added[k]
         # deliveries: seeded delay, reordering, duplication; to the other node or back to the sender
